@@ -91,6 +91,11 @@ def census_crate(run, doc, cfgname, entry_reach_only=True, full=None):
             continue
         for li, l in enumerate(f.mir["locals"]):
             if not l["freeze"]:
+                bare = re.sub(r"^&(mut )?", "", l["ty"])
+                if bare.startswith("impl ") or re.match(r"^[A-Z]\w*$", bare):
+                    # a type parameter: Freeze is unknown for the parameter itself; every value it is instantiated
+                    # with is a local of a caller inside the crate (no generic function is exported) and is checked there
+                    continue
                 run.ob(False, "interior-mut-local|%s|%s" % (f.key, l["ty"]), "C16-2 no interior mutability on a reachable path",
                        "%s in %s (local _%d%s)" % (f.file, f.key, li, " " + l["name"] if l["name"] else ""), "local of type %s contains UnsafeCell" % l["ty"])
         for b in f.mir["blocks"]:
